@@ -298,3 +298,34 @@ def explicit_h_reaction(rng):
         if "[" + el in txt:
             tags.add("element_starting_with_H")
     return txt, tags
+
+
+# --------------------------------------------------------------------------- look-alike spectators
+# reactions whose reactant side contains atoms that agree on element, charge, H count and degree but differ
+# in the bond orders around them (cumulated double bonds vs single+triple, sulfoxide vs sulfone ...)
+_LOOKALIKE_CORES = [
+    "[CH3:1][NH2:2].[CH3:3][N:4]=[C:5]=[S:6]>>[CH3:1][NH:2][C:5](=[S:6])[NH:4][CH3:3]",
+    "[CH3:1][OH:2].[CH3:3][C:4](=[O:5])[Cl:6]>>[CH3:1][O:2][C:4](=[O:5])[CH3:3].[ClH:6]",
+    "[CH3:1][CH2:2][Br:3].[N-:4]=[N+:5]=[N-:6]>>[CH3:1][CH2:2][N:4]=[N+:5]=[N-:6].[Br-:3]",
+    "[CH3:1][C:2]#[N:3].[OH2:4]>>[CH3:1][C:2](=[O:4])[NH2:3]",
+    "[CH3:1][CH:2]=[C:3]=[CH2:4].[BrH:5]>>[CH3:1][CH:2]=[C:3]([Br:5])[CH3:4]",
+]
+_LOOKALIKE_POOL = ["CSC#N", "CN=C=S", "CCN=C=NC", "NC#N", "CNC#N", "C=C=CC", "CCC#C", "CN=C=O", "COC#N", "CC(=O)C#N", "S=C=O",
+                   "CC=C=O", "C[N+]#[C-]", "CN=[N+]=[N-]", "CS(C)=O", "CCS(=O)(=O)C", "CC#CCC", "CC=C=CCC", "CC#N", "C=C=N", "CC=C=NC",
+                   "CC#CN(C)C", "CSC=C=S", "CSC#CS", "N=C=NC", "CN(C)C#N", "OC#N", "N=C=O"]
+
+
+def lookalike_reaction(rng):
+    from rdkit import Chem
+    core = rng.choice(_LOOKALIKE_CORES)
+    n = max(int(m) for m in re.findall(r":(\d+)\]", core))
+    a, b = core.split(">>")
+    for smi in rng.sample(_LOOKALIKE_POOL, rng.randint(2, 4)):
+        m = Chem.MolFromSmiles(smi)
+        for at in m.GetAtoms():
+            n += 1
+            at.SetAtomMapNum(n)
+        t = Chem.MolToSmiles(m, canonical=False)
+        a += "." + t
+        b += "." + t
+    return a + ">>" + b
